@@ -101,6 +101,17 @@ func Col(name string) X {
 	return X{Toks: t, Full: t, N: &ast.Identifier{Name: name}, P: PPrimary, Names: []Name{{Role: "column", Name: name}}}
 }
 
+// QuotedCol is a double-quoted column reference; the tree keeps the name without the quotes.
+func QuotedCol(name string) X {
+	t := []Tok{pt(`"` + strings.ReplaceAll(name, `"`, `""`) + `"`)}
+	feat := []string{"expr.quoted-identifier"}
+	switch strings.ToUpper(name) {
+	case "SELECT", "FROM", "WHERE", "TABLE", "ORDER", "GROUP", "KEY", "INDEX":
+		feat = append(feat, "expr.quoted-identifier.reserved-word")
+	}
+	return X{Toks: t, Full: t, N: &ast.Identifier{Name: name}, P: PPrimary, Feat: feat, Names: []Name{{Role: "column", Name: name}}}
+}
+
 // QCol is a qualified column reference t.c.
 func QCol(tab, name string) X {
 	t := []Tok{pt(tab), pt("."), pt(name)}
